@@ -337,11 +337,11 @@ def main_check(prop, tier, seed, replay=None):
                 entry = next((e for e in ctx.known if e.get("id") == fid), None)
                 if entry is None:
                     if still_fails:
-                        violations.append(({"kind": "unlisted-finding", "id": fid, "what": what}, True))
+                        violations.append(({"kind": "unlisted-finding", "id": fid, "what": what, "failing_input": {"probe": fid, "witness": what}}, True))
                     continue
                 if entry.get("status") == "fixed":
                     if still_fails:
-                        violations.append(({"kind": "fixed-finding-returned", "id": fid, "what": what}, True))
+                        violations.append(({"kind": "fixed-finding-returned", "id": fid, "what": what, "failing_input": {"probe": fid, "witness": what}}, True))
                 elif still_fails:
                     line = "KNOWN-FINDING: property=%s %s" % (prop, entry.get("what", what))
                     print(line, flush=True)
